@@ -51,6 +51,8 @@ pub struct BinSys {
 struct Pool {
     pures: Vec<PureSys>,
     bins: Vec<BinSys>,
+    /// mixtures of three components (K-values depend on the overall composition)
+    terns: Vec<BinSys>,
     memo: Mutex<HashMap<(u8, usize, [u64; 4]), Option<VleNum>>>,
 }
 
@@ -141,9 +143,18 @@ fn pool() -> &'static Pool {
             let tc_low = tcs.iter().map(|s| s.temperature.to_reduced()).fold(f64::INFINITY, f64::min);
             bins.push(BinSys { name: "saftvrmie_ethane_propane", eos, tc_low });
         }
+        let mut terns = Vec::new();
+        {
+            let eos = eos_of(ResidualModel::PcSaft(PcSaft::new(Arc::new(pcsaft_params(&["propane", "butane", "hexane"])))), 3);
+            let tcs = State::critical_point_pure(&eos, None, SolverOptions::default())
+                .unwrap_or_else(|e| crate::systems::harness(&format!("critical points of the ternary: {e}")));
+            let tc_low = tcs.iter().map(|s| s.temperature.to_reduced()).fold(f64::INFINITY, f64::min);
+            terns.push(BinSys { name: "pcsaft_propane_butane_hexane", eos, tc_low });
+        }
         Pool {
             pures,
             bins,
+            terns,
             memo: Mutex::new(HashMap::new()),
         }
     }))
@@ -319,6 +330,10 @@ pub enum SOp {
     FlashSameP { from: usize, dt: f64, ntot: f64 },
     /// flash at the temperature of an earlier flash result, at a scaled pressure, guided by it
     FlashSameT { from: usize, pf: f64, ntot: f64 },
+    /// ternary flash guided by a converged flash result of a neighbouring problem:
+    /// mode 0 no guess, 1 other feed at the same (T, p), 2 same feed at T + dt, 3 same feed at p * pf,
+    /// 4 its own stand-alone result
+    TernFlash { tf: f64, z: [f64; 2], u: f64, ntot: f64, mode: u8, dz: [f64; 2], dt: f64, pf: f64 },
 }
 
 #[derive(Serialize, Deserialize, Clone, Debug)]
@@ -860,6 +875,62 @@ fn session_binary_op(ctx: &mut Ctx, sc: &Session, i: usize, op: &SOp, pool_v: &m
             ctx.out.count("probe.flash_continuation_same_p_or_t", 1);
             flash_op(ctx, sc, i, t, p, z, *ntot, Some(k), pool_v, opts);
         }
+        SOp::TernFlash { tf, z, u, ntot, mode, dz, dt, pf } => {
+            let sys = &pool().terns[0];
+            let eos = &sys.eos;
+            let t = tf * sys.tc_low;
+            let comp = |a: f64, b: f64| arr1(&[a, b, 1.0 - a - b]);
+            let zz = comp(z[0], z[1]);
+            // everything that is not the judged call runs fault-free and un-guided
+            let setup = verif::suspended(|| {
+                let pb = Vle::bubble_point(eos, t * KELVIN, &zz, None, None, Default::default()).ok()?.vapor().pressure(Contributions::Total).to_reduced();
+                let pd = Vle::dew_point(eos, t * KELVIN, &zz, None, None, Default::default()).ok()?.vapor().pressure(Contributions::Total).to_reduced();
+                if !(pb > pd * 1.02) {
+                    return None;
+                }
+                let p = pd + u * (pb - pd);
+                let feed = &zz * *ntot * MOL;
+                let r = Vle::tp_flash(eos, t * KELVIN, Pressure::from_reduced(p), &feed, None, SolverOptions::default(), None).ok()?;
+                let g = match mode {
+                    0 => None,
+                    1 => {
+                        let z2 = comp((z[0] + dz[0]).clamp(0.05, 0.6), (z[1] + dz[1]).clamp(0.05, 0.35));
+                        Some(Vle::tp_flash(eos, t * KELVIN, Pressure::from_reduced(p), &(&z2 * MOL), None, SolverOptions::default(), None).ok()?)
+                    }
+                    2 => Some(Vle::tp_flash(eos, (t + dt) * KELVIN, Pressure::from_reduced(p), &feed, None, SolverOptions::default(), None).ok()?),
+                    3 => Some(Vle::tp_flash(eos, t * KELVIN, Pressure::from_reduced(p * pf), &feed, None, SolverOptions::default(), None).ok()?),
+                    _ => Some(r.clone()),
+                };
+                Some((p, feed, r, g))
+            });
+            let Some((p, feed, r, g)) = setup else {
+                ctx.out.count("window.ternary_flash_setup_failed", 1);
+                return;
+            };
+            let r = num(&r);
+            let before = g.as_ref().map(fingerprint);
+            let res = Vle::tp_flash(eos, t * KELVIN, Pressure::from_reduced(p), &feed, g.as_ref(), opts, None);
+            if let (Some(g), Some(b)) = (&g, &before) {
+                check_guess_unchanged(ctx, &format!("op {i} ternary tp_flash"), g, b);
+            }
+            ctx.out.count("op.tp_flash_ternary", 1);
+            ctx.out.count(&format!("probe.ternary_flash_guess_mode{mode}"), 1);
+            match res {
+                Ok(v) => {
+                    let n = num(&v);
+                    digest_num(&mut ctx.dg, &n);
+                    judge(ctx, "flash-mismatch", "tp_flash", format!("op {i} tp_flash of {} at T={t}, p={p}, z={zz}, guess mode {mode} (dz {dz:?}, dt {dt}, pf {pf})", sys.name), &n, &r, TOL_FLASH_REL, TOL_FLASH_X, "flash3");
+                    // material balance of the returned phases
+                    let fr = feed.to_reduced();
+                    let d = (0..3).map(|k| deviation(n.nv[k] + n.nl[k], fr[k], 1e-300)).fold(0.0, f64::max);
+                    ctx.out.max("dev.flash3.balance", d);
+                    if !(d <= 1e-9) {
+                        ctx.out.violate("flash-mismatch", "tp_flash:balance", format!("op {i} ternary tp_flash of {}: phases {:?} + {:?} do not add up to the feed {zz} * {ntot}", sys.name, n.nv, n.nl));
+                    }
+                }
+                Err(_) => ctx.out.count("probe.ternary_flash_err", 1),
+            }
+        }
         SOp::FlashSameTp { from, v, ntot, use_guess } => {
             let flashes: Vec<usize> = pool_v.iter().enumerate().filter(|(_, e)| e.1).map(|(k, _)| k).collect();
             if flashes.is_empty() {
@@ -1344,8 +1415,18 @@ fn gen_session(rng: &mut Rng, tier: Tier, no_faults: bool) -> Session {
         if binary {
             let tf = rng.uniform(0.65, 0.95);
             let x = rng.uniform(0.05, 0.95);
-            let r = rng.below(12);
+            let r = rng.below(14);
             ops.push(match r {
+                12..=13 => SOp::TernFlash {
+                    tf: rng.uniform(0.65, 0.92),
+                    z: [q9(rng.uniform(0.1, 0.5)), q9(rng.uniform(0.1, 0.3))],
+                    u: rng.uniform(0.15, 0.85),
+                    ntot: rng.uniform(0.5, 4.0),
+                    mode: rng.below(5) as u8,
+                    dz: [q9(rng.uniform(-0.15, 0.15)), q9(rng.uniform(-0.1, 0.1))],
+                    dt: q9(rng.uniform(-6.0, 6.0)),
+                    pf: q9(rng.uniform(0.9, 1.1)),
+                },
                 0..=3 => SOp::BdT {
                     bubble: rng.chance(0.5),
                     tf,
